@@ -1804,6 +1804,46 @@ def rule_slotfill(ctx) -> RuleResult:
 
 
 # ---------------------------------------------------------------------------------------------
+# R-FINALIZERUN (C04): a blueprint's finalizer runs whenever it has one.
+# The tree plans merge the intermediates and then `_finalize_results` applies `agg.finalize`.  The only legitimate way round it is the
+# blueprint having no finalizer (`agg.finalize is None`: the built-in single-intermediate reductions, and the blockwise path, which computes
+# the final value directly and clears the slot).  A user-supplied Aggregation may have ONE intermediate and a finalizer (a Euclidean norm:
+# chunk sum_of_squares, combine sum, finalize sqrt), so the number of intermediates says nothing: every store of a raw intermediate as the
+# result must be implied by `agg.finalize is None`.
+def rule_finalizerun(ctx) -> RuleResult:
+    res = RuleResult("R-FINALIZERUN", "the merged intermediates go through the blueprint's finalizer unless it has none", min_instances=2)
+    f = ctx.prog.func("core._finalize_results")
+    aggp = next((p for p in f.params if p == "agg"), None)
+    if aggp is None:
+        raise AnalysisError("_finalize_results lost its `agg` parameter (anchor)")
+    pm = parents_map(f.node)
+    n_run = 0
+    for a in walk_own(f.node):
+        if not (isinstance(a, ast.Assign) and len(a.targets) == 1 and isinstance(a.targets[0], ast.Subscript) and norm(a.targets[0].value) == "finalized"
+                and norm(a.targets[0].slice) == "agg.name"):
+            continue
+        runs = any(isinstance(c, ast.Call) and norm(c.func) == "agg.finalize" for c in ast.walk(a.value))
+        if any(isinstance(x, ast.Subscript) and norm(x) == "finalized[agg.name]" for x in ast.walk(a.value)):
+            continue      # a later cast / mask / reindex of the value already stored
+        facts = guard_facts(a, pm)
+        if runs:
+            n_run += 1
+            res.inst(f"_finalize_results: '{norm(a)[:70]}' applies the finalizer", f"run|{a.lineno}")
+            continue
+        implied = ("agg.finalize is None", True) in facts or ("agg.finalize is not None", False) in facts or ("agg.finalize", False) in facts
+        res.inst(f"_finalize_results: '{norm(a)[:70]}' hands a raw intermediate on; implied by 'agg.finalize is None': {implied} (facts: {sorted(map(str, facts))[:3]})",
+                 f"raw|{norm(a.value)[:40]}")
+        if not implied:
+            res.report("core._finalize_results|finalizer-skipped", f.where(a), f.qualname,
+                       f"'{norm(a)[:70]}' returns a merged intermediate as the result on a path where the blueprint may have a finalizer (the enclosing tests do not imply "
+                       "'agg.finalize is None'): a user Aggregation(chunk='sum_of_squares', combine='sum', finalize=np.sqrt) returns the sum of squares on chunked input, "
+                       "the norm on in-memory input")
+    if n_run == 0:
+        raise AnalysisError("_finalize_results no longer calls agg.finalize (anchor)")
+    return res
+
+
+# ---------------------------------------------------------------------------------------------
 # R-PREDFAMILY (C11, C19): the `_is_*_reduction(func: T_Agg)` predicates treat both spellings of a reduction alike.
 # `func` may be a name or an Aggregation object (flox.aggregations.max_ is a legal argument).  Every predicate of the family either turns the
 # object into its name (`if isinstance(func, Aggregation): func = func.name`) or tests the object explicitly; one that only recognises strings
